@@ -49,6 +49,8 @@ pub enum COp {
     DialAgain,
     /// let `n` ticks of virtual time pass
     Wait(u32),
+    /// environment fault: L's new outbound substreams are slow to open (held back) / released again
+    HoldOpens(bool),
 }
 
 #[derive(Clone, Debug, Serialize, Deserialize)]
@@ -248,6 +250,7 @@ impl Scenario for ConnScenario {
                 let _ = w.nodes[st.l].cmd.send(NodeCmd::Dial(st.peer_r));
             }
             COp::Wait(n) => st.wait = Some(n),
+            COp::HoldOpens(hold) => w.nodes[st.l].script.set_hold_opens(hold),
         }
     }
 
@@ -292,9 +295,25 @@ impl Scenario for ConnScenario {
         }
         st.app_seen = al.len();
         drop(al);
+        // "is being opened" counts like "exists" (C09); only tracked in programs that hold opens back, where the
+        // period is long enough to matter
+        let pending_opens = if self.program.iter().any(|o| matches!(o, COp::HoldOpens(_))) {
+            let count = |log: &[Seen]| {
+                let asked = log.iter().filter(|e| matches!(e, Seen::OpenSubstreamResult { result: Ok(_), .. })).count();
+                let answered = log
+                    .iter()
+                    .filter(|e| matches!(e, Seen::SubstreamOpened { outbound: Some(_), .. } | Seen::SubstreamOpenFailure { .. }))
+                    .count();
+                asked.saturating_sub(answered)
+            };
+            count(&st.x.log.lock()) + count(&st.y.log.lock())
+        } else {
+            0
+        };
         let held = st.x.substreams.lock().iter().filter(|s| s.is_some()).count()
             + st.y.substreams.lock().iter().filter(|s| s.is_some()).count()
-            + st.in_flight_holds.load(std::sync::atomic::Ordering::SeqCst);
+            + st.in_flight_holds.load(std::sync::atomic::Ordering::SeqCst)
+            + pending_opens;
         if st.held_history.last().map(|(_, h)| *h) != Some(held) {
             st.held_history.push((st.now, held));
         }
@@ -629,6 +648,12 @@ pub fn scenarios(filter: &str, thorough: bool) -> Vec<ConnScenario> {
             v.push(sc("c08", 2, false, 8, vec![Connect, ConnectBack, OpenX, Wait(4), KillRemote]));
             v.push(sc("c08", 2, false, 8, vec![Connect, ConnectBack, OpenX, Wait(4), CutLink(0), Connect, OpenX]));
             v.push(sc("c08", 2, false, 8, vec![Connect, ConnectBack, OpenX, Wait(4), CutLink(1), CutLink(0), ConnectBack, OpenX]));
+            // substream opens that are slow: answered once by a timeout failure (5 s), by the late success, or cut off by
+            // the end of the connection
+            v.push(sc("c08", ka, false, 10, vec![Connect, HoldOpens(true), OpenX, OpenY, Wait(6), HoldOpens(false)]));
+            v.push(sc("c08", ka, false, 8, vec![Connect, HoldOpens(true), OpenX, Wait(2), HoldOpens(false), OpenX]));
+            v.push(sc("c08", ka, false, 8, vec![Connect, HoldOpens(true), OpenX, OpenX, CutLink(0), HoldOpens(false)]));
+            v.push(sc("c08", 2, false, 10, vec![Connect, HoldOpens(true), OpenX, Wait(3), HoldOpens(false)]));
             if thorough {
                 v.push(sc("c08", ka, false, 8, vec![Connect, ConnectBack, OpenX, OpenY, CutLink(0), OpenX, OpenY, CutLink(1), Connect, OpenX]));
             }
@@ -665,6 +690,9 @@ pub fn scenarios(filter: &str, thorough: bool) -> Vec<ConnScenario> {
             // idle expiry racing with inbound substreams of a non-keep-alive protocol (ping opens one per second)
             v.push(sc("c07", 4, true, 12, vec![Connect, Wait(5)]));
             v.push(sc("c07", 4, true, 12, vec![Connect, Wait(3), Wait(2)]));
+            // the connection ends while substream opens are in flight
+            v.push(sc("c07", ka, false, 8, vec![Connect, HoldOpens(true), OpenX, OpenY, CutLink(0), HoldOpens(false)]));
+            v.push(sc("c07", ka, false, 8, vec![Connect, HoldOpens(true), OpenX, ExitX, HoldOpens(false), CutLink(0)]));
         }
         _ => {
             // c09: T = 4 ticks
@@ -685,6 +713,11 @@ pub fn scenarios(filter: &str, thorough: bool) -> Vec<ConnScenario> {
             v.push(sc("c09", t, false, tail, vec![Connect, ConnectBack]));
             v.push(sc("c09", t, false, tail, vec![Connect, ConnectBack, Wait(2), OpenX, DropSubX(0)]));
             v.push(sc("c09", 8, false, 24, vec![Connect, Wait(6), OpenX, Wait(4), DropSubX(0)]));
+            // "or is being opened": a substream whose opening is slow keeps the connection past the idle timeout; it
+            // either opens late (released at t=6 > T) or fails by the 5 s open timeout, after which the connection goes
+            v.push(sc("c09", t, false, tail, vec![Connect, Wait(3), HoldOpens(true), OpenX, Wait(3), HoldOpens(false), Wait(2), DropSubX(0)]));
+            v.push(sc("c09", t, false, 16, vec![Connect, Wait(3), HoldOpens(true), OpenX, Wait(7), HoldOpens(false)]));
+            v.push(sc("c09", 2, false, 12, vec![Connect, HoldOpens(true), OpenY, Wait(4), HoldOpens(false), Wait(1), DropSubY(0)]));
             if thorough {
                 for a in 0..=4u32 {
                     for b in 0..=4u32 {
